@@ -983,12 +983,21 @@ Proof.
 Qed.
 
 (* ------------------------------------------------------------------ round 8 *)
-(* multi_mode_dot called with modes=None: the code sets modes = range(len(matrix_or_vec_list)) (regenerated from the source on
-   every run, harness/props/C02_coretie.py); the literal Python-int routines of both backends on that list are the routines
-   with modes = None that C02_multi_mode_dot_core / C02_multi_mode_dot_backends_agree are about - for every operand list not
-   longer than the order of the tensor (any operand kinds, sizes, skip, transpose; rejections included) - FULL *)
+(* multi_mode_dot with NON-NEGATIVE Python modes, in range or not, distinct on the non-skipped operands: the literal Python-int
+   routines of both backends are the natural-number routines (no resolution happens; an out-of-range mode is rejected by both) - FULL;
+   in particular modes=None: the code sets modes = range(len(matrix_or_vec_list)) (regenerated from the source on every run,
+   harness/props/C02_coretie.py), and the literal routines on that list are the routines with modes = None that
+   C02_multi_mode_dot_core / C02_multi_mode_dot_backends_agree are about - for EVERY operand list (any length, operand kinds, sizes,
+   skip, transpose; rejections included), no hypothesis - FULL *)
+Theorem C02_multi_mode_dot_nonnegative_modes : forall (F : Type) (Op : rops F) (T : tensor F) (Ms : list (tensor F)) (ks : list nat)
+  (skip : option nat) (tr : bool),
+  let L := filter (fun x => negb (is_skip skip (snd x))) (sort_by_mode (zip3 Ms (Some ks))) in
+  NoDup (map (@t_mode F) L) ->
+  multi_mode_dot_z Op T Ms (map Z.of_nat ks) skip tr = multi_mode_dot Op T Ms (Some ks) skip tr /\
+  multi_mode_dot_e_z Op T Ms (map Z.of_nat ks) skip tr = multi_mode_dot_e Op T Ms (Some ks) skip tr.
+Proof. exact @multi_mode_dot_z_nonneg. Qed.
+Print Assumptions C02_multi_mode_dot_nonnegative_modes.
 Theorem C02_multi_mode_dot_default_modes : forall (F : Type) (Op : rops F) (T : tensor F) (Ms : list (tensor F)) (skip : option nat) (tr : bool),
-  length Ms <= ndim T ->
   multi_mode_dot_z Op T Ms (map Z.of_nat (seq 0 (length Ms))) skip tr = multi_mode_dot Op T Ms None skip tr /\
   multi_mode_dot_e_z Op T Ms (map Z.of_nat (seq 0 (length Ms))) skip tr = multi_mode_dot_e Op T Ms None skip tr.
 Proof. exact @multi_mode_dot_default_modes. Qed.
@@ -997,7 +1006,6 @@ Print Assumptions C02_multi_mode_dot_default_modes.
 Example C02_nonvacuous_default_modes :
   let T : tensor Z := mk [2; 3] [1; 2; 3; 4; 5; 6]%Z in let v : tensor Z := mk [2] [1; -1]%Z in
   let M : tensor Z := mk [2; 3] [1; 0; 2; 0; 1; 1]%Z in
-  length [v; M] <= ndim T /\
   multi_mode_dot_z ZR T [v; M] (map Z.of_nat (seq 0 2)) None false = Ok (mk [2] [-9; -6]%Z) /\
   multi_mode_dot ZR T [v; M] None None false = Ok (mk [2] [-9; -6]%Z) /\
   multi_mode_dot_e ZR T [v; M] None None false = Ok (mk [2] [-9; -6]%Z).
